@@ -483,15 +483,18 @@ class HexString(Expression, Condition):
 
 
 class ByteString(Expression, Condition):
+    _hash_raw_args = True
     arg_types = {"this": True, "is_bytes": False}
     is_primitive = True
 
 
 class RawString(Expression, Condition):
+    _hash_raw_args = True
     is_primitive = True
 
 
 class UnicodeString(Expression, Condition):
+    _hash_raw_args = True
     arg_types = {"this": True, "escape": False}
 
 
@@ -583,6 +586,7 @@ class Introducer(Expression):
 
 
 class National(Expression):
+    _hash_raw_args = True
     is_primitive = True
 
 
@@ -1996,14 +2000,17 @@ class JSONPathPart(Expression):
 
 
 class JSONPathFilter(JSONPathPart):
+    _hash_raw_args = True
     arg_types = {"this": True}
 
 
 class JSONPathKey(JSONPathPart):
+    _hash_raw_args = True
     arg_types = {"this": True, "quoted": False}
 
 
 class JSONPathRecursive(JSONPathPart):
+    _hash_raw_args = True
     arg_types = {"this": False}
 
 
@@ -2012,6 +2019,7 @@ class JSONPathRoot(JSONPathPart):
 
 
 class JSONPathScript(JSONPathPart):
+    _hash_raw_args = True
     arg_types = {"this": True}
 
 
@@ -2028,6 +2036,7 @@ class JSONPathSubscript(JSONPathPart):
 
 
 class JSONPathUnion(JSONPathPart):
+    _hash_raw_args = True
     arg_types = {"expressions": True}
 
 
